@@ -98,7 +98,7 @@ def modelParse (fmt : String) (o : POpts) (bs : List Byte) : Option PRes :=
     | r => some (Phylip.toOutcome r)
   | "stockholm" => (Stockholm.parseBytes Gen.FmtFacts.stockholm_markup_stops_at_eof
       Gen.FmtFacts.stockholm_rejects_empty o bs).map liftOutcome
-  | "clustal" => (Clustal.parseBytes Gen.FmtFacts.clustal_checks_row_index o bs).map liftOutcome
+  | "clustal" => some (liftOutcome (Clustal.parseBytes Gen.FmtFacts.clustal_checks_row_index o bs))
   | "nexus" => (Nexus.parseBytes ⟨Gen.FmtFacts.nexus_comment_stops_at_eof,
       Gen.FmtFacts.nexus_rejects_negative_counts, Gen.FmtFacts.nexus_rejects_empty_rows,
       Gen.FmtFacts.nexus_keyword_rows_are_residues, Gen.FmtFacts.nexus_rejects_nested_begin,
